@@ -8,6 +8,6 @@ St == [base |-> base, inj |-> inj, injBase |-> injBase, allInj |-> allInj, sent 
 MInit == Init /\ PrintT(ToJson([init |-> St, obs |-> Obs]))
 MSend(k) == Send(k) /\ PrintT(ToJson([src |-> St, act |-> [n |-> "Send", k |-> k], dst |-> St', obs |-> Obs']))
 MInject == Inject /\ PrintT(ToJson([src |-> St, act |-> [n |-> "Inject"], dst |-> St', obs |-> Obs']))
-MNext == MInject \/ \E k \in 1..MaxEp : MSend(k)
+MNext == MInject \/ \E k \in MinEp..MaxEp : MSend(k)
 MSpec == MInit /\ [][MNext]_vars
 ====
